@@ -20,12 +20,14 @@ REACH = {"H14": ["h14.subscribe", "h14.stopsubscribe", "h14.refresh", "h14.end"]
 EGS = {
     "g1": dict(sid=0x3000, iid=1, maj=1, eg=5, sockname=("192.0.2.77", 4000), proto="UDP", v6=False),
     "g2": dict(sid=0x3001, iid=2, maj=3, eg=6, sockname=("2001:db8::77", 4001, 0, 0), proto="TCP", v6=True),
+    # same local address and port as g1, other transport protocol
+    "g3": dict(sid=0x3002, iid=1, maj=1, eg=7, sockname=("192.0.2.77", 4000), proto="TCP", v6=False),
 }
 SERVERS = {"P": P, "Q": Q}
 
 
 def bounds(tier):
-    return {"H14": "calls from {subscribe(eventgroup in {IPv4/UDP, IPv6/TCP}, server in {P,Q}), stop_subscribe(...), start, stop}: %s; delivery iteration/batching symbolic; observed when idle after the last call and 7 s later" % ("K<=4 with gaps symbolic 0..7000 ms, and K=5 over one eventgroup with gaps 0..3500 ms" if tier == "thorough" else "K<=4 with gaps symbolic 0..3500 ms (before / at / after one refresh instant)")}
+    return {"H14": "calls from {subscribe(eventgroup in {IPv4/UDP, IPv6/TCP}, server in {P,Q}), stop_subscribe(...), start, stop}: %s; plus K<=3 (T 4) over two eventgroups that share one local address and port but differ in the transport protocol; delivery iteration/batching symbolic; observed when idle after the last call and 7 s later" % ("K<=4 with gaps symbolic 0..7000 ms, and K=5 over one eventgroup with gaps 0..3500 ms" if tier == "thorough" else "K<=4 with gaps symbolic 0..3500 ms (before / at / after one refresh instant)")}
 
 
 def _valid(seq):
@@ -58,10 +60,11 @@ def _valid(seq):
 
 
 def cases(tier, seed):
-    full = [["sub", g, s] for g in EGS for s in SERVERS] + [["unsub", g, s] for g in EGS for s in SERVERS] + [["start"], ["stop"]]
+    full = [["sub", g, s] for g in ("g1", "g2") for s in SERVERS] + [["unsub", g, s] for g in ("g1", "g2") for s in SERVERS] + [["start"], ["stop"]]
+    shared = [["sub", g, "P"] for g in ("g1", "g3")] + [["unsub", g, "P"] for g in ("g1", "g3")] + [["start"]]
     core = [["sub", "g1", s] for s in SERVERS] + [["unsub", "g1", s] for s in SERVERS] + [["start"], ["stop"]]
     # (alphabet, K, maximal gap in ms)
-    plan = [(full, 4, 3500)] if tier == "quick" else [(full, 4, 7000), (core, 5, 3500)]
+    plan = [(full, 4, 3500), (shared, 3, 3500)] if tier == "quick" else [(full, 4, 7000), (core, 5, 3500), (shared, 4, 3500)]
     out, seen = [], set()
     for cfgname in ("finite", "forever"):
         for alpha, K, gap in plan:
